@@ -433,6 +433,11 @@ func (in *instr) pre(c *astutil.Cursor) bool {
 // assignments, control statements. Statements that get a real yield anyway
 // (channel operations, select, go, locks) are left alone.
 func (in *instr) preempt(c *astutil.Cursor, st ast.Stmt) {
+	if !st.Pos().IsValid() {
+		// a statement generated by this tool (GoStart, an inserted Yield, ...):
+		// no preemption point, in particular none before a goroutine registered
+		return
+	}
 	switch v := st.(type) {
 	case *ast.AssignStmt, *ast.IncDecStmt, *ast.ReturnStmt, *ast.IfStmt, *ast.ForStmt, *ast.SwitchStmt, *ast.TypeSwitchStmt:
 		_ = v
